@@ -45,6 +45,7 @@ struct Plan {
     vector<Op> ops;
     int policy = 1; uint64_t den = 16, quantum = 2, sched_seed = 1; int depth = 2;
     vector<rt::Switch> switches; bool has_switches = false;
+    vector<rt::ScriptStep> script;      // scheduling script (policy 5): see rt.hpp
     vector<int> main_init, main_free;   // object handoff: threads whose eav_t is initialised by the main thread before they start / freed by it after the join
 };
 
@@ -66,6 +67,7 @@ static sj::Value plan_to_json(const Plan &p) {
     j.set("ops", a);
     if (!p.main_init.empty()) { sj::Value m = sj::Value::array(); for (int t : p.main_init) m.push(sj::Value::integer(t)); j.set("main_init", m); }
     if (!p.main_free.empty()) { sj::Value m = sj::Value::array(); for (int t : p.main_free) m.push(sj::Value::integer(t)); j.set("main_free", m); }
+    if (!p.script.empty()) { sj::Value sc = sj::Value::array(); for (auto &x : p.script) { sj::Value e = sj::Value::array(); e.push(sj::Value::integer(x.tid)); e.push(sj::Value::integer(x.kind)); e.push(sj::Value::integer((long long)x.n)); sc.push(e); } j.set("script", sc); }
     if (p.has_switches) {
         sj::Value sw = sj::Value::array();
         for (auto &x : p.switches) { sj::Value e = sj::Value::array(); e.push(sj::Value::integer((long long)x.at)); e.push(sj::Value::integer(x.to)); e.push(sj::Value::integer(x.forced)); sw.push(e); }
@@ -96,6 +98,7 @@ static Plan plan_from_json(const sj::Value &j) {
         p.ops.push_back(op);
     }
     for (const char *nm : { "main_init", "main_free" }) { const sj::Value *m = j.get(nm); if (m && m->kind == sj::Value::Arr) for (auto &e : m->a) { int t = (int)e.i; if (t >= 0 && t < p.nthreads) (nm[5] == 'i' ? p.main_init : p.main_free).push_back(t); } }
+    { const sj::Value *sc = j.get("script"); if (sc && sc->kind == sj::Value::Arr) for (auto &e : sc->a) if (e.kind == sj::Value::Arr && e.a.size() >= 3) p.script.push_back(rt::ScriptStep{ (int)e.a[0].i % p.nthreads, (int)e.a[1].i, (uint64_t)e.a[2].i }); }
     const sj::Value *sw = j.get("switches");
     if (sw && sw->kind == sj::Value::Arr) {
         p.has_switches = true;
@@ -284,7 +287,7 @@ static void thread_entry(int X, void *arg) {
         if (!sh->inflight[X]) {
             if (it.pred >= 0 && sh->items[(size_t)it.pred].exec != X) rt::wait(&sh->items[(size_t)it.pred]);
             sh->inflight[X] = 1; sh->cur_prog[X] = it.prog;
-            if (it.kind == 1) run_segment(it.prog, sh, it.oi, it.oi + 1, false, false, true);
+            if (it.kind == 1) { run_segment(it.prog, sh, it.oi, it.oi + 1, false, false, true); rt::op_boundary(); }
             else run_segment(it.prog, sh, it.oi, it.oi, it.kind == 0, it.kind == 2, true);
         }
         sh->inflight[X] = 0;
@@ -363,7 +366,7 @@ static void run_plan(const Plan &p, bool want_log, RunOut &ro, bool count = true
         for (int t = 0; t < p.nthreads; t++) if (sh.init_by_main[t]) rt::run_sequential(pre_entry, t, &sh);
         handoff_steps += rt::end_sequential();
     }
-    cfg.nthreads = p.nthreads; cfg.keep_sync_state = handoff; cfg.policy = p.has_switches ? 0 : p.policy; cfg.den = p.den; cfg.quantum = p.quantum; cfg.pct_depth = p.depth;
+    cfg.nthreads = p.nthreads; cfg.keep_sync_state = handoff; cfg.script = p.script; cfg.op_boundaries = !p.script.empty(); cfg.policy = p.has_switches ? 0 : p.policy; cfg.den = p.den; cfg.quantum = p.quantum; cfg.pct_depth = p.depth;
     cfg.pct_est_steps = seq_steps ? seq_steps : 1; cfg.sched_seed = p.sched_seed; cfg.replay = p.switches;
     cfg.step_budget = 20 * seq_steps + 2000;
     sh.in_concurrent = true;
@@ -585,6 +588,28 @@ static Plan gen_plan(const string &cfg, uint64_t seed, long long index) {
             long j = i + 1 + q;
             p.switches.push_back(rt::Switch{ (uint64_t)i, 1 - first, 0 }); p.switches.push_back(rt::Switch{ (uint64_t)j, first, 0 });
         }
+        return p;
+    }
+    if (cfg == "aba") {
+        // narrow change counters: one thread is parked between two of its first events while another replaces the shared state
+        // exactly 2^8 or 2^16 times (the last replacement restoring what the parked thread saw), with a short stop in between -
+        // the schedule under which a validity check built on a wrapping tag accepts stale data.  Only where labels write static storage.
+        discover_conflicts();
+        p.nthreads = 2; p.locale = "C";
+        if (g_conf_labels_writing == 0) { p.nthreads = 1; Op o; o.t = 0; o.k = TLD; o.a = "u@x.com"; p.ops.push_back(o); p.policy = 2; return p; }
+        vector<std::pair<string, string>> pr = { { "u@x.de", "u@x.com" }, { "u@x.ru", "u@x.info" }, { "u@x.jp", "u@x.aero" } };
+        for (size_t i = 0; i < g_conf.size() && i < 5; i++) pr.push_back(g_conf[i]);
+        const long NI = 16, NK = 2, NM = 3, P = (long)pr.size();
+        long k = (long)index; long pair = k % P; k /= P; long ii = k % NI; k /= NI; long kk = 1 + k % NK; k /= NK; long mm = 1 + k % NM; k /= NM; int role = (int)(k % 2); k /= 2;
+        long N = (k % 2) ? 65536 : 256;
+        string A = role ? pr[pair].second : pr[pair].first, B = role ? pr[pair].first : pr[pair].second;
+        Op w0; w0.t = 0; w0.k = TLD; w0.a = A; w0.ph = 1; p.ops.push_back(w0);
+        Op a0; a0.t = 0; a0.k = TLD; a0.a = A; p.ops.push_back(a0);
+        for (long i = 0; i < N; i++) { Op b0; b0.t = 1; b0.k = TLD; b0.a = (i % 2) ? A : B; p.ops.push_back(b0); }
+        p.main_init = { 0, 1 }; p.main_free = { 0, 1 };
+        p.policy = 5;
+        p.script = { { 0, 0, (uint64_t)ii }, { 1, 1, (uint64_t)kk }, { 0, 0, (uint64_t)mm }, { 1, 2, 0 }, { 0, 2, 0 } };
+        if (ii == 0) p.script.erase(p.script.begin());
         return p;
     }
     if (cfg == "systematic") {
